@@ -279,6 +279,12 @@ query Focus { %(ordinary)s
 """
 
 
+def raises_key(e):
+    if "VARIABLE_DEFINITION" in str(e) and "__DirectiveLocation" in str(e):
+        return "introspection-raises:directive-location-VARIABLE_DEFINITION-unknown-to-introspection"
+    return "introspection-raises:%s" % type(e).__name__
+
+
 def issue(config, schema, text, root, **kw):
     import py_gql
     from py_gql.execution import Executor
@@ -306,7 +312,8 @@ def run(ctx):
 
     rng = ctx.rng("cases")
     for ci in range(ctx.n(12)):
-        case = exec_mon.Case(rng, "c15:%d:%d:%d" % (ctx.seed, ctx.shard, ci), world_kw={"p_error": 0.0, "p_null_in_nonnull": 0.0})
+        case = exec_mon.Case(rng, "c15:%d:%d:%d" % (ctx.seed, ctx.shard, ci), world_kw={"p_error": 0.0, "p_null_in_nonnull": 0.0},
+                             schema_kw={"features": {"variable_definition_location": True}})
         # make sure string defaults with quotes / backslashes / newlines occur
         ir = case.ir
         case.sdl = S.to_sdl(ir)[0]
@@ -334,7 +341,7 @@ def run(ctx):
             try:
                 res = issue(config, case.schema, introspection_query(), root)
             except Exception as e:
-                ctx.violation("introspection-raises:%s" % type(e).__name__, witness, repr(e)[:300])
+                ctx.violation(raises_key(e), witness, repr(e)[:300])
                 continue
             if res.errors or not isinstance(res.data, dict):
                 ctx.violation("introspection-errors", witness, repr([str(e) for e in res.errors])[:300])
@@ -357,7 +364,7 @@ def run(ctx):
                 try:
                     res = issue(config, case.schema, text, root)
                 except Exception as e:
-                    ctx.violation("introspection-raises:%s" % type(e).__name__, witness, repr(e)[:300])
+                    ctx.violation(raises_key(e), witness, repr(e)[:300])
                     continue
                 if res.errors or not isinstance(res.data, dict):
                     ctx.violation("introspection-errors", witness, repr([str(e) for e in res.errors])[:300])
@@ -425,7 +432,8 @@ def run(ctx):
                 try:
                     res = issue("blocking", case.schema, introspection_query(), root)
                 except Exception as e:
-                    ctx.violation("after-in-place-change:introspection-raises:%s" % type(e).__name__, witness, repr(e)[:300])
+                    k = raises_key(e)
+                    ctx.violation(k if "VARIABLE_DEFINITION" in k else "after-in-place-change:" + k, witness, repr(e)[:300])
                 else:
                     if res.errors or not isinstance(res.data, dict):
                         ctx.violation("after-in-place-change:introspection-errors", witness, repr([str(e) for e in res.errors])[:300])
